@@ -360,6 +360,24 @@ def gen_cases(run):
         yield _gen_spec(rng, kind)
 
 
+WITNESSES_PER_KEY = 6
+
+
+def setup(run):
+    """keep at most WITNESSES_PER_KEY written-out witnesses per mechanism, so that one frequent defect (a transform that
+    crashes on every call) cannot use up the runner's global witness cap and hide the others; the rest is counted"""
+    record = run.violation
+    seen = {}
+
+    def limited(key, what, spec=None):
+        seen[key] = seen.get(key, 0) + 1
+        if key not in run.known and seen[key] > WITNESSES_PER_KEY:
+            run.count(f"further_witnesses:{key}")
+            return
+        record(key, what, spec)
+    run.violation = limited
+
+
 # ================================================================================================ calling the real code
 _FAILED = object()
 _codes = {}
